@@ -26,6 +26,15 @@ const (
 )
 
 func resolveErgoDir(start string) (string, error) {
+	// A relative start (e.g. --dir sub) must search the same ancestors as the
+	// absolute spelling of that directory; the upward walk stops at "." otherwise.
+	if !filepath.IsAbs(start) {
+		abs, err := filepath.Abs(start)
+		if err != nil {
+			return "", err
+		}
+		start = abs
+	}
 	current := start
 	for {
 		candidate := filepath.Join(current, dataDirName)
